@@ -85,7 +85,7 @@ class C14(Check):
             for i in range(n):
                 out.append(["f", gen.gen_type(pool), "%s%d" % (prefix, i)])
             return out
-        old_items = fields(rng.randint(1, 3), "o")
+        old_items = fields(rng.choice([0, 1, 1, 2, 2, 3]), "o")  # 0: the older revision is a field-less marker type
         if rng.random() < 0.3:
             old_items.insert(rng.randint(0, len(old_items)), ["p", rng.choice([1, 3, 8])])
         new_items = copy.deepcopy(old_items) + fields(rng.randint(1, 3), "n")
